@@ -242,11 +242,13 @@ def node_main(args):
                 rec['Y'] = _facts(B, ModelHash)
                 rec['must_equal'] = True
             elif family == 'differs':
-                which = tape.draw(3, 'differs.kind')
+                import pharmpy.modeling as pm
+                which = tape.draw(10, 'differs.kind')
+                names = A.parameters.names
+                p = names[tape.draw(len(names), 'differs.par')]
+                par = A.parameters[p]
                 if which == 0:
-                    from pharmpy.modeling import set_initial_estimates
-                    p = A.parameters.names[tape.draw(len(A.parameters.names), 'differs.par')]
-                    B = set_initial_estimates(A, {p: A.parameters[p].init * 1.01 + 1e-4})
+                    B = pm.set_initial_estimates(A, {p: par.init * 1.01 + 1e-4})
                     rec['change'] = f'init of {p}'
                 elif which == 1:
                     df = A.dataset.copy()
@@ -254,10 +256,47 @@ def node_main(args):
                     df.loc[df.index[row], 'WGT'] = df.iloc[row]['WGT'] + 0.5
                     B = A.replace(dataset=df)
                     rec['change'] = f'dataset row {row}'
-                else:
-                    from pharmpy.modeling import add_estimation_step
-                    B = add_estimation_step(A, 'FO')
+                elif which == 2:
+                    B = pm.add_estimation_step(A, 'FO')
                     rec['change'] = 'execution steps'
+                elif which == 3:
+                    B = pm.unfix_parameters(A, p) if par.fix else pm.fix_parameters(A, p)
+                    rec['change'] = f'fix flag of {p}'
+                elif which == 4:
+                    B = pm.set_upper_bounds(A, {p: (par.init + 1.0) * 10 if par.upper > 1e10 else par.upper * 2 + 1})
+                    rec['change'] = f'upper bound of {p}'
+                elif which == 5:
+                    B = pm.set_lower_bounds(A, {p: par.init - abs(par.init) - 1.0 if par.lower < -1e10
+                                                else par.lower - abs(par.lower) * 0.5 - 0.001})
+                    rec['change'] = f'lower bound of {p}'
+                elif which == 6:
+                    df = A.dataset.iloc[:-1].copy()
+                    B = A.replace(dataset=df)
+                    rec['change'] = 'last dataset row dropped'
+                elif which == 7:
+                    df = A.dataset.copy()
+                    df['APGR'] = df['APGR'].astype('float64') + 0.0
+                    df.loc[df.index[0], 'APGR'] = df.iloc[0]['APGR'] + 1.0
+                    B = A.replace(dataset=df)
+                    rec['change'] = 'value in a covariate column'
+                elif which == 8:
+                    st = A.statements
+                    from pharmpy.model import Assignment
+                    from pharmpy.basic import Expr
+                    extra = Assignment.create(Expr.symbol('ZZEXTRA'), Expr.integer(1 + tape.draw(5, 'differs.val')))
+                    B = A.replace(statements=st.before_odes + extra + st.ode_system + st.after_odes
+                                  if st.ode_system is not None else st + extra)
+                    rec['change'] = 'an extra statement'
+                else:
+                    rvs = A.random_variables
+                    vp = rvs.etas.variance_parameters if len(rvs.etas) else []
+                    if vp:
+                        q = vp[tape.draw(len(vp), 'differs.omega')]
+                        B = pm.set_initial_estimates(A, {q: A.parameters[q].init * 1.5 + 0.001})
+                        rec['change'] = f'variance parameter {q}'
+                    else:
+                        B = pm.add_estimation_step(A, 'FO')
+                        rec['change'] = 'execution steps'
                 rec['X'] = rec['A']
                 rec['Y'] = _facts(B, ModelHash)
                 rec['must_differ'] = True
